@@ -658,6 +658,43 @@ func (env *SpecEnv) call(n *ECall) SVal {
 		s := n.Args[1].(*EStr)
 		T := env.typeByName(s.V)
 		return SVal{V: env.e.unbox(env.st(), v.V.Fs[1].T, T), T: T}
+	case "smhas", "smbytes", "smtag":
+		// smhas(obj, "field", key) / smbytes(obj, "field", key): the sync.Map in field `field` of object obj
+		// (string keys; smbytes reads a []byte payload)
+		o := env.eval(n.Args[0])
+		fs, ok := n.Args[1].(*EStr)
+		if !ok {
+			unsupp("smhas(obj, \"field\", key)")
+		}
+		pt, isPtr := o.T.Underlying().(*types.Pointer)
+		if !isPtr {
+			unsupp("smhas: object must be a pointer to a struct")
+		}
+		stT, isSt := pt.Elem().Underlying().(*types.Struct)
+		if !isSt {
+			unsupp("smhas: object must be a pointer to a struct")
+		}
+		idx := -1
+		for i := 0; i < stT.NumFields(); i++ {
+			if stT.Field(i).Name() == fs.V {
+				idx = i
+			}
+		}
+		if idx < 0 {
+			unsupp("smhas: no field %s", fs.V)
+		}
+		id := smID(o.V.T, typeKey(pt.Elem())+pathString(pt.Elem(), []int{idx}))
+		kv := env.eval(n.Args[2])
+		k := App("box_seq", SInt, kv.V.T)
+		domS, valS := smSorts()
+		switch n.Fn {
+		case "smhas":
+			return gBool(Select(Select(env.st().heapGet("SM:dom", domS), id), k))
+		case "smtag":
+			return gInt(Select(Select(env.st().heapGet("SM:tag", valS), id), k))
+		default:
+			return SVal{V: scalar(App("unbox_seq", SSeq, Select(Select(env.st().heapGet("SM:val", valS), id), k))), G: "Seq"}
+		}
 	case "samearray":
 		// samearray(a, b): the two slices share their backing array
 		a := env.eval(n.Args[0])
